@@ -34,6 +34,11 @@ def apply_bool_fn(I, f, lin, loc='?'):
         r = I.apply(I.reg[f], [VInt(lin)], loc)
         if not isinstance(r, VBool): raise Undecidable('comparator closure does not return bool', loc)
         return r.t
+    if f[0] == 'fn' and I.E.thir(f[1]) is not None and f[1] not in I.E.specs:
+        # a named local function used as the comparator: its body is the comparator
+        r = I.E.inline(I, f[1], [VInt(lin)], loc)
+        if not isinstance(r, VBool): raise Undecidable('comparator function does not return bool', loc)
+        return r.t
     return ('uf', f, lin)
 
 def apply_bdd_fn(I, f, bterm, lin, b=None, loc='?'):
